@@ -67,9 +67,10 @@ Nodes(cv) == {cv[i] : i \in 1..Len(cv)}
 Pts1(cv) == SortQ({QAdd(QSub(First(cv), QOne), H(k, 4)) :
                      k \in 0..QFloor(QMul(S(4), QAdd(QSub(Last(cv), First(cv)), S(2))))}
                   \cup Mids(cv) \cup Nodes(cv))
-PtsFew(cv) == SortQ({QSub(First(cv), FirstStep(cv)), QSub(First(cv), QHalf(FirstStep(cv))), First(cv),
-                     QHalf(QAdd(cv[1], cv[2])), QAdd(First(cv), QMul(H(1, 4), FirstStep(cv))), cv[2], Last(cv),
-                     QAdd(Last(cv), QMul(H(1, 4), LastStep(cv))), QAdd(QAdd(Last(cv), LastStep(cv)), H(1, 4))})
+PtsFew(cv) == SortQ({QSub(First(cv), QHalf(FirstStep(cv))), First(cv),
+                     QHalf(QAdd(cv[1], cv[2])), QAdd(First(cv), QMul(H(1, 4), FirstStep(cv))), Last(cv),
+                     QAdd(Last(cv), QMul(H(1, 4), LastStep(cv))), QAdd(QAdd(Last(cv), LastStep(cv)), H(1, 4))}
+                    \cup (IF Big THEN {QSub(First(cv), FirstStep(cv)), cv[2]} ELSE {}))
 PtsTiny(cv) == SortQ({QSub(First(cv), QMul(H(1, 4), FirstStep(cv))), First(cv), QHalf(QAdd(cv[1], cv[2])),
                       QAdd(Last(cv), QHalf(LastStep(cv)))}
                      \cup (IF Big THEN {QAdd(First(cv), QMul(H(3, 4), FirstStep(cv)))} ELSE {}))
